@@ -62,6 +62,10 @@ def run(tier="quick", seed=0, pid="C13"):
         vals = [v for v in sorted(words, key=repr) if 1 <= len(v) <= MAX_LEN]
         rnd.shuffle(vals)
         vals = vals[:words_per_spec]
+        # inputs OUTSIDE the language as well (single-edit near misses): cutting them must not make them parse
+        from bounded.c04_c05 import near_misses
+        outside = [v for v in near_misses(words, rnd, 4 if tier == "quick" else 20) if 1 <= len(v) <= MAX_LEN]
+        vals = vals + outside
         lang = set(words)
         for w in vals:
             parser = IterativeParser(grammar.rules)
@@ -88,8 +92,8 @@ def run(tier="quick", seed=0, pid="C13"):
                         "script": replay_script(name, w, pieces)})
             if len(samples) < 8:
                 samples.append({"spec": name, "word": repr(w), "compositions": 2 ** (len(w) - 1) - 1, "complete_parses": len(whole)})
-            # can_continue after every proper prefix
-            for cut in range(1, len(w)):
+            # can_continue after every proper prefix (of words of the language)
+            for cut in range(1, len(w) if w in lang else 0):
                 u = w[:cut]
                 evaluations += 1
                 parser = IterativeParser(grammar.rules)
